@@ -8,6 +8,8 @@
  *       and no token is indexed; token 0 "max" is INT64_MAX, otherwise token 0's number (not the whole line's);
  *   readMempressureAt / readIopressureAt: open memory.pressure / io.pressure of THIS cgroup, parse exactly those lines for the
  *       requested kind (some/full) once, return the parser's verdict unchanged; unreadable -> error, parser not consulted;
+ *   readRootMempressure: /proc/pressure/memory, and /proc/mempressure only when that is unreadable; error only when both are;
+ *   readRootIopressure: /proc/pressure/io only;
  *   readMemoryOomGroupAt: true exactly when the file is the single line "1"; never indexes;
  *   readKillPreferenceAt: PREFER if either prefer attribute is present (checked before any avoid attribute),
  *       AVOID if only an avoid attribute is, NORMAL otherwise; an xattr probe error is an error result. */
@@ -107,6 +109,32 @@ maybe_ResourcePressure Fs__readRespressureFromLines(vec_str_t lines, Fs_Pressure
 maybe_ResourcePressure Fs__readMempressureAt(Fs_DirFd dirfd, Fs_PressureType type) PSI_READER_CONTRACT(STR_memory_pressure);
 maybe_ResourcePressure Fs__readIopressureAt(Fs_DirFd dirfd, Fs_PressureType type) PSI_READER_CONTRACT(STR_io_pressure);
 
+/* root PSI: /proc/pressure/memory with the pre-4.20 /proc/mempressure as fallback; /proc/pressure/io */
+maybe_vec_str_t g_f1, g_f2;      /* contents of the primary file asked for, and of /proc/mempressure */
+str_t g_primary; uint64_t g_r1, g_r2;
+maybe_vec_str_t Fs__readFileByLine__str_t_char(str_t path)
+{
+  if (path == STR__proc_mempressure) { g_r2 = g_r2 + 1; return g_f2; }
+  __CPROVER_assert(path == STR__proc_pressure_memory || path == STR__proc_pressure_io, "only the PSI files of the root are read");
+  g_primary = path; g_r1 = g_r1 + 1; return g_f1;
+}
+#define PSI_VERDICT_ON(f) (g_psi_calls == 1 && g_psi_vid == (f).val.vid && g_psi_n == (f).val.n && g_psi_type == type && \
+         __CPROVER_return_value.ok == g_psi.ok && (g_psi.ok ? __CPROVER_return_value.val == g_psi.val : 1))
+maybe_ResourcePressure Fs__readRootMempressure(Fs_PressureType type)
+  __CPROVER_requires(ghost_exc == 0 && g_psi_calls == 0 && g_r1 == 0 && g_r2 == 0)
+  __CPROVER_assigns(g_primary, g_r1, g_r2, g_psi_vid, g_psi_n, g_psi_type, g_psi_calls)
+  __CPROVER_ensures(g_primary == STR__proc_pressure_memory && g_r1 == 1)
+  /* the modern file wins; the legacy file is consulted only when the modern one is unreadable; error only when both are */ /*@C10,C15,C08*/
+  __CPROVER_ensures(g_f1.ok ? (g_r2 == 0 && PSI_VERDICT_ON(g_f1))
+                            : (g_r2 == 1 && (g_f2.ok ? PSI_VERDICT_ON(g_f2) : (!__CPROVER_return_value.ok && g_psi_calls == 0))))
+  __CPROVER_ensures(ghost_exc == 0);
+maybe_ResourcePressure Fs__readRootIopressure(Fs_PressureType type)
+  __CPROVER_requires(ghost_exc == 0 && g_psi_calls == 0 && g_r1 == 0 && g_r2 == 0)
+  __CPROVER_assigns(g_primary, g_r1, g_r2, g_psi_vid, g_psi_n, g_psi_type, g_psi_calls)
+  __CPROVER_ensures(g_primary == STR__proc_pressure_io && g_r1 == 1 && g_r2 == 0) /*@C10,C15,C08*/
+  __CPROVER_ensures(g_f1.ok ? PSI_VERDICT_ON(g_f1) : (!__CPROVER_return_value.ok && g_psi_calls == 0))
+  __CPROVER_ensures(ghost_exc == 0);
+
 /* xattr probes */
 maybe__Bool g_tp, g_up, g_ta, g_ua;   /* trusted.oomd_prefer, user.oomd_prefer, trusted.oomd_avoid, user.oomd_avoid */
 uint64_t g_probes;
@@ -147,3 +175,6 @@ void h_readMemhightmpFromLines(void) { vec_str_t l; HAVOC_FR(); Fs__readMemhight
 void h_readMemhightmpAt(void) { Fs_DirFd d; HAVOC_FR(); Fs__readMemhightmpAt(d); CANARY; }
 void h_readMempressureAt(void) { Fs_DirFd d; Fs_PressureType t; HAVOC_FR(); HAVOC(g_psi); g_psi_calls = 0; Fs__readMempressureAt(d, t); CANARY; }
 void h_readIopressureAt(void) { Fs_DirFd d; Fs_PressureType t; HAVOC_FR(); HAVOC(g_psi); g_psi_calls = 0; Fs__readIopressureAt(d, t); CANARY; }
+#define HAVOC_ROOT() do { HAVOC_FR(); HAVOC(g_psi); HAVOC(g_f1); HAVOC(g_f2); g_psi_calls = 0; g_r1 = 0; g_r2 = 0; } while (0)
+void h_readRootMempressure(void) { Fs_PressureType t; HAVOC_ROOT(); Fs__readRootMempressure(t); CANARY; }
+void h_readRootIopressure(void) { Fs_PressureType t; HAVOC_ROOT(); Fs__readRootIopressure(t); CANARY; }
